@@ -177,7 +177,7 @@ func runErrCtor(r *core.Run) {
 			}
 		}
 	}
-	r.Floor("error construction sites", sites, 20)
+	r.Floor("error construction sites", sites, 10)
 	// 5. css errPos is only ever assigned the cursor's Offset() (possibly minus a token length)
 	if sp := r.Prog.SSAPkg("css"); sp != nil {
 		n := 0
@@ -217,7 +217,7 @@ func runErrCtor(r *core.Run) {
 				r.Check(ok, fmt.Sprintf("%s errPos from cursor offset", fnLabel(fn)), st.Pos(), l.String(), "errPos is assigned something other than a cursor Offset()-derived value")
 			}
 		}
-		r.Floor("css errPos assignments", n, 7)
+		r.Floor("css errPos assignments", n, 1)
 	}
 }
 
